@@ -56,6 +56,12 @@ CHECKS.update({
         "Every stub file of every generated package must be accepted as a whole by a hand-written recogniser with its own reserved-word table; a deterministic sweep puts each of the 23 Python-legal keywords (three spellings) in every declaration position under both naming settings; random packages cover hostile strings and docstrings in all four docstring styles.",
         "§5 C02",
     ),
+    "C07": (
+        "E1 package engine",
+        "property-based testing: Hypothesis-drawn function bodies from a statement grammar, symbolically evaluated by the ground truth to return shapes (coverage oracle); return annotations x docstring result entries (count/order/name oracle)",
+        "Un-annotated bodies with literal, signed, tuple and conditional returns nested in if/elif/else, try/except/else/finally, for/while/else, with, match and nested defs are evaluated to their return shapes and every literal at every position must be covered by the stub result at that position; annotated functions are judged for result count, order, translated type and names (NumPy names, result_N otherwise) and agreement with the API JSON.",
+        "§5 C07",
+    ),
 })
 
 NOT_YET = "check not built yet in this session (work in progress, see DESIGN.md §9)"
